@@ -69,6 +69,10 @@ public:
     //! called (on the thread that blocked last) when no thread is runnable. Return normally is
     //! not possible: the handler must end the case (pbt::fatal / pbt::finish_case_early).
     ::std::function<void()> deadlock_handler;
+    //! if set, every scheduling decision is delegated: choose(number of options, first option is
+    //! "stay on the current thread" and all others cost one preemption). Used by the bounded-exhaustive
+    //! explorer (engine/sched/explore.hpp) instead of the choice bytes.
+    ::std::function<unsigned(unsigned, bool)> chooser;
     //! harness hook: called when a thread releases a mutex through unlock() (not through a
     //! condition-variable wait), i.e. at the end of a completed critical section, with the
     //! releasing thread's id. Gives model-based oracles the exact linearisation order.
@@ -88,6 +92,7 @@ public:
         max_threads_seen = 1;
         deadlock_handler = nullptr;
         unlock_hook = nullptr;
+        chooser = nullptr;
         auto t = ::std::make_unique<LThread>();
         t->id = 0;
         threads.push_back(::std::move(t));
@@ -145,17 +150,22 @@ public:
         int next;
         if (n == 1) next = en[0];
         else {
-            unsigned r = src->u8();
-            if (me_enabled && r < opt.stay_bias) next = current;
+            // options: [stay on the current thread (if it is enabled)] + the other enabled threads in id order
+            unsigned nopts = n; // me_enabled: 1 + (n-1) others; otherwise n others
+            unsigned k;         // chosen option
+            if (chooser) k = chooser(nopts, me_enabled);
             else {
-                // pick among the others (or among all when the current thread is not enabled)
-                unsigned m = me_enabled ? n - 1 : n;
-                unsigned k = (me_enabled ? r - opt.stay_bias : r) % m;
-                unsigned j = 0;
+                unsigned r = src->u8();
+                if (me_enabled) k = r < opt.stay_bias ? 0 : 1 + (r - opt.stay_bias) % (n - 1);
+                else k = r % n;
+            }
+            if (me_enabled && k == 0) next = current;
+            else {
+                unsigned want = me_enabled ? k - 1 : k, j = 0;
                 next = en[0];
                 for (unsigned i = 0; i < n; ++i) {
                     if (me_enabled && en[i] == current) continue;
-                    if (j++ == k) {
+                    if (j++ == want) {
                         next = en[i];
                         break;
                     }
@@ -309,7 +319,7 @@ public:
         if (!s.active) return;
         s.point("notify_one");
         if (!waiters_.empty()) {
-            size_t i = waiters_.size() > 1 ? s.src->index(waiters_.size()) : 0;
+            size_t i = waiters_.size() <= 1 ? 0 : s.chooser ? s.chooser((unsigned)waiters_.size(), false) : s.src->index(waiters_.size());
             int w = waiters_[i];
             waiters_.erase(waiters_.begin() + (long)i);
             s.make_runnable(*s.threads[w]);
